@@ -56,6 +56,7 @@ type Discharger struct {
 	Workers   int
 	Dir       string // scratch dir for failed queries
 	NoRace    bool   // probes: one solver, no retry
+	Claimed   func(id string) bool // obligations worth the full timeout and the solver race
 	mu        sync.Mutex
 	Stats     SolveStats
 	seen      map[[32]byte]bool
@@ -109,6 +110,13 @@ func (d *Discharger) buildIncremental(u *UnitResult, ps *PathScript) (string, []
 			d.mu.Unlock()
 			if dup {
 				continue
+			}
+			if d.Claimed != nil {
+				tmo := d.TimeoutMs
+				if !d.Claimed(it.Obl.ID) {
+					tmo = 1500
+				}
+				fmt.Fprintf(&b, "(set-option :timeout %d)\n", tmo)
 			}
 			fmt.Fprintf(&b, "; obligation %s\n(push 1)\n(assert (not %s))\n(check-sat)\n(pop 1)\n", it.Obl.ID, it.Text)
 			checks = append(checks, it)
@@ -204,7 +212,7 @@ func (d *Discharger) runScript(u *UnitResult, ps *PathScript, sv []Solver, scrip
 	d.mu.Unlock()
 	pre := header(u.BV) + u.Preamble + strings.Join(u.Decls, "\n") + "\n"
 	for i, in := range insts {
-		if d.NoRace {
+		if d.NoRace || (d.Claimed != nil && !d.Claimed(in.Obl.ID)) {
 			continue
 		}
 		if in.Status == "unsat" && !d.Thorough {
